@@ -114,12 +114,28 @@ func (cm *c20Cmp) kids(w, g *oracle.N, path string, inCode, inPre bool) {
 			ok = false
 			break
 		}
-		aligned = append(aligned, [2]*oracle.N{wk[i], gk[j]})
-		if gk[j].Kind == "el" && gk[j].Name == "br" && j+1 < len(gk) && gk[j+1].Kind == "el" && gk[j+1].Name == "br" &&
-			!(i+1 < len(wk) && wk[i+1].Kind == "el" && wk[i+1].Name == "br") {
-			doubled = true
-			j++
+		isBr := func(n *oracle.N) bool { return n.Kind == "el" && n.Name == "br" }
+		if isBr(wk[i]) && isBr(gk[j]) {
+			// a run of k hard breaks in the reference against a run of 2k in the
+			// engine output: every <br> was serialised as <br></br>
+			rw, rg := 0, 0
+			for i+rw < len(wk) && isBr(wk[i+rw]) {
+				rw++
+			}
+			for j+rg < len(gk) && isBr(gk[j+rg]) {
+				rg++
+			}
+			if rg == 2*rw {
+				for t := 0; t < rw; t++ {
+					aligned = append(aligned, [2]*oracle.N{wk[i+t], gk[j+2*t]})
+				}
+				doubled = true
+				i += rw
+				j += rg
+				continue
+			}
 		}
+		aligned = append(aligned, [2]*oracle.N{wk[i], gk[j]})
 		i++
 		j++
 	}
@@ -266,6 +282,11 @@ func (cm *c20Cmp) attrs(w, g *oracle.N, p string, lt bool) {
 				continue
 			}
 			what = " (compared percent-decoded)"
+		}
+		if k == "alt" && oracle.NormText(wv) == oracle.NormText(gv) {
+			// a soft line break inside the image description: "\n" in the
+			// reference, a space in the engine output - the same plain text
+			continue
 		}
 		if k == "alt" && strings.Contains(wv, "<br>\n") {
 			// goldmark writes the markup of a hard line break into the alt text; the plain-text reading is white space
